@@ -283,17 +283,32 @@ def iterStep (ctx : Ctx) (root : State) (rootHash : UInt64) (workers : Nat) (dep
         | Option.none => st.events
       { st with tt := w.tt, rng, polls := w.polls, events, finished := true }
 
+/-- since the repair of F11, the first statement of the loop body: `if depth > 0 && token.is_cancelled() { break; }`.
+The flag is read between iterations (the workers only read it every `pollInterval` nodes, counted per iteration), but
+not before the first one.  Same convention as the poll in `searchNode`: the poll is counted, and it answers
+"cancelled" iff `cancelAt = some k` and at least `k` polls happened before it. -/
+def boundaryPoll (ctx : Ctx) (depth : Nat) (st : IterSt) : IterSt :=
+  if depth > 0 then
+    let cancelled := match ctx.cancelAt with | some k => decide (st.polls ≥ k) | Option.none => false
+    { st with polls := st.polls + 1, finished := cancelled }
+  else st
+
 /-- `for depth in 0..max_depth { … }` with `break` -/
 def iterLoop (ctx : Ctx) (root : State) (rootHash : UInt64) (workersOf : Nat → Nat) :
     Nat → Nat → IterSt → IterSt
   | 0, _, st => st
   | n+1, depth, st =>
     if st.finished then st
-    else iterLoop ctx root rootHash workersOf n (depth + 1) (iterStep ctx root rootHash (workersOf depth) depth st)
+    else
+      let st := boundaryPoll ctx depth st
+      if st.finished then st
+      else iterLoop ctx root rootHash workersOf n (depth + 1) (iterStep ctx root rootHash (workersOf depth) depth st)
 
 /-- `analyze_iterative` with `workersOf depth` workers in iteration `depth`, run one after the other (for
 one worker this is the real execution; for several it is one admissible schedule).
-`maxDepth = none` is modelled by `fuelDepth` iterations (the real loop has `usize::MAX`). -/
+`maxDepth = none` is modelled by `fuelDepth` iterations (the real loop has `usize::MAX`); since the repair of F11
+every iteration boundary polls the flag, so with `cancelAt = some k` the result does not depend on the fuel once it is
+`≥ k + 2` (`Wee/Props/C04Stop.lean`). -/
 def iterate (root : State) (rng0 : Rng.ChaCha8) (maxDepth : Option Nat) (art : Artifact)
     (workersOf : Nat → Nat) (cancelAt : Option Nat) (fuelDepth : Nat := 64) : Outcome :=
   let keys := art.keys.keys
